@@ -551,6 +551,17 @@ def body(chk):
         chk.tlc_stats(r)
         for v in r.violated:
             chk.violation(f"model:{cfg}:{v}", f"TLC: {v} violated in Loads ({cfg})", {"tlc": r.out[-3000:]})
+    # the planning phase before the first file operation (LoadsPlan.tla): thread-local in the code's design ("none"); a shared memo is safe when
+    # its look-up is one step ("atomic") and when it is not full (cta_Hist2); the check-then-act look-up on a full memo MUST fail -- that
+    # behaviour is what line_schedules() realises on the real code
+    for cfg in ("MC_LoadsPlan_none_Hist4", "MC_LoadsPlan_none_Hist2", "MC_LoadsPlan_atomic_Hist4", "MC_LoadsPlan_atomic_Hist2", "MC_LoadsPlan_cta_Hist2"):
+        r = tlc.run_ok("MC_LoadsPlan", cfg, workers=2)
+        chk.tlc_stats(r)
+        for v in r.violated:
+            chk.violation(f"model:{cfg}:{v}", f"TLC: {v} violated in LoadsPlan ({cfg})", {"tlc": r.out[-3000:]})
+    rp = tlc.run("MC_LoadsPlan", "MC_LoadsPlan_cta_Hist4", workers=2)
+    if "NoSpuriousError" not in rp.violated:
+        raise checklib.Machinery("non-vacuity: a check-then-act look-up in a full shared memo must break NoSpuriousError in LoadsPlan")
     # beyond the bound: the same protocol for ANY number of threads / variables / chunks, proved with TLAPS over Loads.tla itself
     from harness import tlaps
 
